@@ -285,6 +285,7 @@ type c19Cfg struct {
 	blms     int // blacklist duration
 	prtms    int // piece request min timeout
 	conntti  int // idle connection timeout (ms)
+	opipe    int // pipeline limit towards origins
 }
 
 func c19IsAgent(r string) bool { return r == "a" || r == "k" }
@@ -354,6 +355,9 @@ func c19ParseCfg(cfg []string) (*c19Cfg, error) {
 	if c.conntti, _ = strconv.Atoi(kv["conntti"]); c.conntti <= 0 {
 		c.conntti = 10000
 	}
+	if c.opipe, _ = strconv.Atoi(kv["opipeline"]); c.opipe <= 0 {
+		c.opipe = c.pipeline + 1
+	}
 	return c, nil
 }
 
@@ -386,7 +390,7 @@ func c19RunSwarm(c *c19Cfg, timeout time.Duration, timeoutTok string) (recs []c1
 		ConnState:          connstate.Config{MaxOpenConnectionsPerTorrent: c.maxconn, BlacklistDuration: time.Duration(c.blms) * time.Millisecond},
 		Conn:               conn.ConfigFixture(),
 		Dispatch: dispatch.Config{PieceRequestMinTimeout: time.Duration(c.prtms) * time.Millisecond, PieceRequestTimeoutPerMb: time.Millisecond,
-			AgentPipelineLimit: c.pipeline, OriginPipelineLimit: c.pipeline + 1, DisableEndgame: !c.endgame},
+			AgentPipelineLimit: c.pipeline, OriginPipelineLimit: c.opipe, DisableEndgame: !c.endgame},
 		TorrentLog: log.Config{Disable: true},
 		Log:        log.Config{Disable: true},
 	}
@@ -715,8 +719,10 @@ func c19GenCfg(r *verifh.Rand) []string {
 	if maxconn <= 2 {
 		conntti = 2000 // two starving agents holding each other's only slot give up quickly
 	}
+	pipeline := []int{1, 1, 2, 3, 4}[r.Intn(5)]
+	opipeline := []int{1, pipeline, pipeline + 1}[r.Intn(3)]
 	return []string{fmt.Sprintf("pl=%d", pl), "blob=" + verifh.Hex(blob), "roles=" + verifh.List(roles),
-		fmt.Sprintf("maxconn=%d", maxconn), fmt.Sprintf("pipeline=%d", 1+r.Intn(4)), "delays=" + verifh.List(delays),
+		fmt.Sprintf("maxconn=%d", maxconn), fmt.Sprintf("pipeline=%d", pipeline), fmt.Sprintf("opipeline=%d", opipeline), "delays=" + verifh.List(delays),
 		"depart=" + verifh.List(depart), fmt.Sprintf("departms=%d", r.Intn(120)), "endgame=" + verifh.Bool(r.Chance(3, 4)),
 		fmt.Sprintf("blms=%d", []int{300, 1500, 6000}[r.Intn(3)]), fmt.Sprintf("prtms=%d", []int{500, 500, 2000}[r.Intn(3)]),
 		fmt.Sprintf("conntti=%d", conntti)}
